@@ -268,6 +268,61 @@ def run(index: RepoIndex, rep) -> None:
               'seed() does not forward a seed to inner_env.set_seed', 'seed')
 
 
+def _dtype_by_space_type(index: RepoIndex, f, e: ast.AST, v: str):
+    """{member of SpaceType: dtype text} denoted by a dtype expression over `v.space_type`: a
+    conditional on identity / equality / membership tests, or a lookup in a module-level dict
+    literal keyed by the members.  None when the expression is neither."""
+    members = list(index.enum('SpaceType').members)
+    st = f'{v}.space_type'
+
+    def member(x: ast.AST):
+        t = src(x)
+        return t.split('.')[-1] if t.startswith('SpaceType.') and t.split('.')[-1] in members \
+            else None
+
+    def truth(t: ast.AST, m: str):
+        if isinstance(t, ast.UnaryOp) and isinstance(t.op, ast.Not):
+            r = truth(t.operand, m)
+            return None if r is None else not r
+        if isinstance(t, ast.Compare) and len(t.ops) == 1:
+            l, r, op = t.left, t.comparators[0], t.ops[0]
+            if src(r) == st:
+                l, r = r, l
+            if src(l) != st:
+                return None
+            if isinstance(op, (ast.Is, ast.Eq, ast.IsNot, ast.NotEq)):
+                mm = member(r)
+                if mm is None:
+                    return None
+                return (mm == m) == isinstance(op, (ast.Is, ast.Eq))
+            if isinstance(op, (ast.In, ast.NotIn)) and isinstance(r, (ast.Tuple, ast.List,
+                                                                      ast.Set)):
+                ms = [member(x) for x in r.elts]
+                if None in ms:
+                    return None
+                return (m in ms) == isinstance(op, ast.In)
+        return None
+
+    def val(x: ast.AST, m: str, depth: int = 4):
+        if depth < 0:
+            return None
+        if isinstance(x, ast.Name) and x.id in ('int', 'float'):
+            return x.id
+        if isinstance(x, ast.IfExp):
+            t = truth(x.test, m)
+            return None if t is None else val(x.body if t else x.orelse, m, depth - 1)
+        if isinstance(x, ast.Subscript) and src(x.slice) == st and isinstance(x.value, ast.Name):
+            tb = f.module.assigns.get(x.value.id, [])
+            if len(tb) == 1 and isinstance(tb[0], ast.Dict):
+                hits = [vv for kk, vv in zip(tb[0].keys, tb[0].values)
+                        if kk is not None and member(kk) == m]
+                if len(hits) == 1:
+                    return val(hits[0], m, depth - 1)
+        return None
+    out = {m: val(e, m) for m in members}
+    return None if None in out.values() else out
+
+
 def check_gym_space(index: RepoIndex, rep, rule: str) -> None:
     f = index.func(GYM, 'outer_space_to_gym_space')
     from ..view import view
@@ -297,12 +352,14 @@ def check_gym_space(index: RepoIndex, rep, rule: str) -> None:
                     names = ['low', 'high', 'shape', 'dtype']
                     for i, a in enumerate(val.args):
                         kw[names[i]] = src(a)
-                    dt = kw.get('dtype', '')
+                    dte = next((x.value for x in val.keywords if x.arg == 'dtype'),
+                               val.args[3] if len(val.args) > 3 else None)
+                    table = _dtype_by_space_type(index, f, dte, v) if dte is not None else None
                     ok = kw.get('low') == f'{v}.lower_bound' and \
-                        kw.get('high') == f'{v}.upper_bound' and dt in (
-                            f'float if {v}.space_type is SpaceType.CONTINUOUS else int',
-                            f'float if {v}.space_type == SpaceType.CONTINUOUS else int',
-                            f'int if {v}.space_type is not SpaceType.CONTINUOUS else float')
+                        kw.get('high') == f'{v}.upper_bound' and \
+                        table == {'CATEGORICAL': 'int', 'DISCRETE': 'int', 'CONTINUOUS': 'float'}
+                    if table is not None:
+                        kw['dtype'] = f'{kw.get("dtype")} = {table}'
                     if not ok:
                         why = f'builds Box({kw})'
     rep.check(ok, rule, GYM, 'outer_space_to_gym_space', f.node.lineno,
